@@ -280,6 +280,8 @@ func (jr *jpegReader) readExif() (err error) {
 		if err = jr.ExifReader(jr.br, exifHeader); err != nil {
 			return err
 		}
+		// The ExifReader consumes exifLength bytes; keep the absolute offset in step
+		jr.discarded += exifLength
 		// Discard remaining bytes
 		remain = 0
 	}
@@ -303,6 +305,10 @@ func (jr *jpegReader) readXMP() (err error) {
 		r := io.LimitReader(jr.br, int64(remain))
 		if err = jr.XMPReader(r); err != nil {
 			return err
+		}
+		// Bytes consumed by the XMPReader count towards the absolute offset
+		if n := int(r.(*io.LimitedReader).N); remain > 0 && n >= 0 {
+			jr.discarded += uint32(remain - n)
 		}
 		// Discard remaining bytes
 		remain = int(r.(*io.LimitedReader).N)
